@@ -614,6 +614,20 @@ class Run(object):
                                 else:
                                     setattr(run.attrobj, "a%d" % (a - 100), op["v"])
                                 run.emit("Set", t=t, a=a, b=op["v"])
+                            elif o == "cancelb":
+                                # cancel the pending active batch of that kind from task code (its waiters get the error)
+                                b = run.active_batch.get(op["a"])
+                                if b is not None and not b.is_computed():
+                                    run.emit("CancelBegin", b=b.bid, t=t)
+                                    b.cancel(run.new_err(32000 + op["a"]))
+                            elif o == "fail":
+                                # complete another, suspended or not yet started, task from outside with an error
+                                obj = run.task_obj.get(op["a"])
+                                # only tasks that are suspended (contexts paused) or not started: failing one's own ancestor
+                                # would pause its active contexts underneath the running task's
+                                if obj is not None and not obj.is_computed() and not obj.running and not obj._contexts_active:
+                                    run.emit("Kill", t=t, a=op["a"])
+                                    obj.set_error(run.new_err(33000 + op["a"]))
                             elif o == "sync":
                                 val = run.sync_call(t, op["a"])
                                 recvs.append(val)
